@@ -282,7 +282,7 @@ class Ctx:
             futs = [ex.submit(self.tlc_trace, module, p, **kw) for p in paths]
             return [f.result() for f in futs]
 
-    def tlc_mc(self, module, cfg, workers=None, timeout=1800, heap="8g", env=None, key=None, coverage=True):
+    def tlc_mc(self, module, cfg, workers=None, timeout=1800, heap="8g", env=None, key=None, coverage=False):
         """Model-check spec/mc/<module>.tla with cfg.  A failure here is a regression of the
         *specification* (it does not depend on /repo): it is a tool error, not a violation."""
         mod = os.path.join(SPEC, "mc", module + ".tla")
